@@ -741,7 +741,7 @@ static void dfs(verif::Run& run, const Cfg& cfg, std::vector<Op>& prefix, int de
 
 int main(int argc, char** argv) {
     verif::Run run("C19", argc, argv);
-    run.setDeadline(1200, 10800);   // safety net only: quick needs ~25-50 s on 16 idle cores (about 320 + 70 CPU-s for section systems), see notes
+    run.setDeadline(1200, 3600);   // safety net only: quick needs ~25-50 s on 16 idle cores (about 320 + 70 CPU-s for section systems), see notes
     const bool thorough = run.thorough();
     const std::vector<Op> A = alphabet();
     const std::vector<Op>& Afull = A;
